@@ -4,11 +4,13 @@ CONSTANTS
   RecIds <- RecsIC
   RootId = 1
   PhenoId = 2
-  WithExtras = FALSE
+  WithExtras = TRUE
   WithPairs = TRUE
   MaxFacts = 1
   EmitAll = TRUE
 INVARIANTS
+  PathsWellFormed
+  ChildNodesSane
   SimSymmetric
   SimBounds
   DistIsMin
